@@ -85,7 +85,7 @@ CORPUS = sched.load_corpus("C16")
 def correspondence(ctx):
     core.assert_repo_loaded()
     # corpus (D11 witness) first, then generated cases, in one batch
-    res = sched.explore(ctx, [dict(c) for c in CORPUS] + gen_cases(ctx.rng, ctx.pick(14, 100), ctx.pick(6, 10)), spec,
+    res = sched.explore(ctx, [dict(c) for c in CORPUS] + gen_cases(ctx.rng, ctx.pick(12, 100), ctx.pick(6, 10)), spec,
                         "C16 concurrency limit")
     ctx.extra["max_open_seen"] = max([o.get("maxopen") or 0 for (_, o, _, _, _) in res] + [0])
     ctx.extra["cases_at_limit"] = sum(1 for (c, o, _, _, _) in res if c.get("k") is not None and o.get("maxopen") == c["k"])
